@@ -20,7 +20,11 @@ Setup1 == BaseSetup @@ [id |-> 1]
 Setup2 == [BaseSetup EXCEPT !.pools = [@ EXCEPT !["o1"] = <<GenPool>>]] @@ [id |-> 2]
 \* g1 additionally holds a second denomination in vesting (only meaningful with two denominations)
 Setup3 == [BaseSetup EXCEPT !.acct = [@ EXCEPT !["g1"] = CV(Fund(20), 0, 4)], !.bal = [@ EXCEPT !["g1"] = Fund(20)]] @@ [id |-> 3]
-MCSetups == IF Cardinality(Denoms) > 1 THEN {Setup2, Setup3} ELSE {Setup1, Setup2}
+\* two genesis pools of one owner whose list order is not the order of their lock ends (the earlier pool matures later)
+GenPoolLong == [name |-> "gq", vt |-> "v0", lockStart |-> 0, lockEnd |-> 4, init |-> 10, sent |-> 0, withdrawn |-> 0, genesis |-> TRUE]
+Setup4 == [BaseSetup EXCEPT !.pools = [@ EXCEPT !["o1"] = <<GenPoolLong, GenPool>>]] @@ [id |-> 4]
+MCSetups == IF Cardinality(Denoms) > 1 THEN {Setup2, Setup3}
+            ELSE IF TrySet = "pools" THEN {Setup1, Setup4} ELSE {Setup1, Setup2}
 
 Half == P \div 2
 MCVTypes == { [name |-> "v0", lockup |-> 0, vesting |-> 4, free |-> 0],
@@ -62,8 +66,9 @@ SplitTries ==
   { SP("o1", "r2", S("one"), U), SP("g1", "o2", S("one"), U), SP("g1", "mod", S("one"), U), SP("g1", "g1", S("one"), U), SP("r2", "r1", S("one"), U),
     MV("g1", "r2"), MV("r1", "r2"), MV("o1", "r2"), MV("g1", "o2"), MV("g1", "mod"),
     MD("g1", "r2", U), MD("g1", "r2", {}), MD("r1", "r2", U), MD("o1", "r2", U) }
+\* (the denomination update is tried with the current denomination too: accept / reject then depends only on the signer and on whether pools exist)
 OtherTries == { DG("g1", S("half")), DG("r1", S("all")), DG("r1", S("half")), DG("g1", L(3)),
-                UD("gov", "stake"), UD("user", "stake"), UD("gov", ""), UD("", "stake") }
+                UD("gov", "uc4e"), UD("user", "uc4e"), UD("gov", ""), UD("", "uc4e"), UD("gov", "stake"), UD("user", "stake"), WD("o1") }
 \* two denominations: account operations over {uc4e}, {stake}, both
 D2 == {"uc4e", "stake"}
 TwoDenomTries == {
@@ -71,9 +76,10 @@ TwoDenomTries == {
   SP("g1", "r2", S("one"), D2), SP("g1", "r2", S("half"), D2), SP("g1", "r2", S("all"), {"stake"}), SP("g1", "r2", S("over"), D2), SP("g1", "r2", S("half"), {"uc4e"}),
   SP("r1", "r2", S("half"), D2), SP("r1", "r2", S("all"), D2),
   MV("g1", "r2"), MV("r1", "r2"), MD("g1", "r2", {"stake"}), MD("g1", "r2", D2), MD("r1", "r2", {"uc4e"}), MD("g1", "r2", {"nosuch"}),
-  DG("g1", S("half")), SD("o1", "r1", "gp", S("half"), TRUE), WD("o1") }
+  DG("g1", S("half")), SD("o1", "r1", "gp", S("half"), TRUE), SD("o1", "r1", "gp", S("all"), TRUE), WD("o1"),
+  UD("gov", "stake"), UD("user", "stake"), UD("gov", "uc4e") }
 
-MCTries == CASE TrySet = "pools" -> PoolTries \cup SendTries \cup { DG("r1", S("half")), UD("gov", "stake"), UD("user", "stake") }
+MCTries == CASE TrySet = "pools" -> PoolTries \cup SendTries \cup { DG("r1", S("half")), UD("gov", "uc4e"), UD("user", "uc4e") }
              [] TrySet = "accounts" -> AccTries \cup SplitTries \cup OtherTries \cup { SD("o1", "r1", "gp", S("half"), TRUE), SD("o1", "r1", "gp", S("all"), FALSE) }
              [] TrySet = "two" -> TwoDenomTries
              [] OTHER -> PoolTries \cup SendTries \cup AccTries \cup SplitTries \cup OtherTries
